@@ -196,9 +196,9 @@ pub fn check_doc_edits(ctx: &mut Ctx, t: &Tree, other: &Tree, rng: &mut Rng, all
 }
 
 pub fn run(ctx: &mut Ctx) {
-    let small = gen::enumerate_small(if ctx.miri { 2 } else { 3 });
+    let small = gen::enumerate_small(if ctx.miri { 1 } else { 3 });
     for (i, t) in small.iter().enumerate() {
-        if i % ctx.nshards != ctx.shard {
+        if i % ctx.nshards != ctx.shard || ctx.miri {
             continue;
         }
         if !ctx.next_case() {
@@ -209,7 +209,7 @@ pub fn run(ctx: &mut Ctx) {
         check_doc_edits(ctx, t, &other, &mut rng, true);
     }
     ctx.exhaustive.insert("small_scope(<=3 nodes) x all positions -len-2..len+2 and i32 extremes".into(), !ctx.miri);
-    let n = ctx.budget(25_000, 1_000_000);
+    let n = if ctx.miri { ctx.miri_cases(2) } else { ctx.budget(250_000, 5_000_000) };
     for i in 0..n {
         if !ctx.next_case() {
             return;
